@@ -697,6 +697,122 @@ def check_compile_end_to_end(chk, F):
     chk.floor(R, "compiled policies", n_ok, 16)
 
 
+# ---- R08.10 compile_tr by evaluation ----------------------------------------------------------------------------------
+
+def compile_tr_family(tier):
+    A, B, C, D = (("key", x) for x in "ABCD")
+    O5, A9, H = ("older", 5), ("after", 9), ("hash", "Sha256", "H")
+    fam = [A, ("or", [A, B]), ("orw", [(9, A), (1, B)]), ("orw", [(1, A), (9, B)]), ("and", [A, B]), ("thresh", 2, [A, B, C]),
+           ("or", [A, ("and", [B, O5])]), ("or", [A, ("or", [B, C])]), ("or", [("and", [A, B]), ("and", [C, O5])]),
+           ("thresh", 1, [A, B, C]), ("or", [A, ("and", [B, H])]), ("and", [A, ("or", [B, O5])])]
+    if tier != "quick":
+        fam += [("thresh", 2, [A, B, O5]), ("orw", [(9, A), (1, ("and", [B, A9]))]), ("or", [("or", [A, B]), ("or", [C, D])]),
+                ("orw", [(1, ("and", [A, B])), (3, ("and", [C, O5])), (5, ("and", [D, H]))]),
+                ("thresh", 1, [("and", [A, B]), ("and", [C, O5]), D])]
+    return fam
+
+
+def _compile_tr_work(job):
+    p, mode = job
+    from .. import facts, textmodel as tm
+    from . import c07, c10, c12, c14, c18
+    tm.sys_path_spec()
+    import policy_sem as PS
+    F = facts.load()
+    m = Machine(F, strict=True, max_depth=220)
+    m.text_keys = True
+    m.max_steps = 400_000_000
+    c14.lock_hooks(m)
+    tm.install_bech32(F, m)
+    key = "%s|%r" % (mode, p)
+    try:
+        S = "std::string::String"
+        if mode in ("compile_tr", "compile_tr_private_experimental"):
+            ct = [q for q in F.fns if q.endswith("policy::concrete::Policy::<Pk>::" + mode)][0]
+            r = m.call_callee({"def": ct, "resolved": ct, "name": mode, "targs": [S]}, [_pol_adt(F, p), some("UNSPENDABLE")])
+        elif mode == "compile_tr_native":
+            ct = [q for q in F.fns if q.endswith("policy::concrete::Policy::<Pk>::compile_tr_native")][0]
+            r = m.call_callee({"def": ct, "resolved": ct, "name": mode, "targs": [S]}, [_pol_adt(F, p), some("UNSPENDABLE"), 8])
+        else:
+            kind = mode.split(":")[1]
+            ctxp = {"Wsh": "miniscript::context::Segwitv0", "ShWsh": "miniscript::context::Segwitv0",
+                    "Sh": "miniscript::context::Legacy", "Bare": "miniscript::context::BareCtx", "Tr": "miniscript::context::Tap"}[kind]
+            ct = [q for q in F.fns if q.endswith("policy::concrete::Policy::<Pk>::compile_to_descriptor")][0]
+            dctx = Adt("policy::concrete::DescriptorCtx", kind, {"0": some("UNSPENDABLE")} if kind == "Tr" else {})
+            r = m.call_callee({"def": ct, "resolved": ct, "name": "compile_to_descriptor", "targs": [S, ctxp]}, [_pol_adt(F, p), dctx])
+        if not (isinstance(r, Adt) and r.variant == "Ok"):
+            return key, "refused", repr(r)[:160], []
+        d = r.fields["0"]
+        out, _ = tm.display(m, d, alternate=True)
+        text = "".join(map(str, out))
+        bad = []
+        lp = c07.lift_impl(F, c10.DESC)
+        lr = m.call_callee({"def": lp, "resolved": lp, "name": "lift", "targs": ["std::string::String"]}, [d])
+        if not (isinstance(lr, Adt) and lr.variant == "Ok"):
+            bad.append("the compiled descriptor %s does not lift: %s" % (text, repr(lr)[:120]))
+        else:
+            got = PS.subst(c18.from_lib(lr.fields["0"]), lambda a: ("F",) if a == ("key", "UNSPENDABLE") else None)
+            if not PS.equivalent(_pol_sem(p), got):
+                bad.append("the compiled descriptor %s has the spending condition %r, the policy is %r" % (text, got, _pol_sem(p)))
+        # every leaf is sane in the tapscript context
+        vp = [q for q in F.fns if q.endswith("miniscript::private::Miniscript::<Pk, Ctx>::validate")][0]
+        sane = c12.params_value(F, "<miniscript::context::Tap as miniscript::context::ScriptContext>::SANE")
+        tr = d.fields["0"]
+        tree = tr.fields["tree"] if d.variant == "Tr" else NONE
+        want_variant = {"desc:Wsh": "Wsh", "desc:Sh": "Sh", "desc:ShWsh": "Sh", "desc:Bare": "Bare"}.get(mode, "Tr")
+        if d.variant != want_variant or (mode == "desc:ShWsh" and tr.fields["inner"].variant != "Wsh") or \
+                (mode == "desc:Sh" and tr.fields["inner"].variant != "Ms"):
+            bad.append("the compiled descriptor %s is not of the requested kind %s" % (text, mode))
+        if tree.variant == "Some":
+            for depth, leaf in tree.fields["0"].fields["depths_leaves"].items:
+                sr = m.call_callee({"def": vp, "resolved": vp, "name": "validate",
+                                    "targs": ["std::string::String", "miniscript::context::Tap"]}, [leaf, sane])
+                if not (isinstance(sr, Adt) and sr.variant == "Ok"):
+                    lo, _ = tm.display(m, leaf)
+                    bad.append("leaf %s of %s is refused by Tap::SANE: %s" % ("".join(map(str, lo)), text, repr(sr)[:100]))
+        # its text parses back to it
+        rr = c10.desc_from_str(F, m, text)
+        if not (isinstance(rr, Adt) and rr.variant == "Ok") or c10.pstrip(rr.fields["0"]) != c10.pstrip(d):
+            bad.append("the text %s of the compiled descriptor does not parse back to it (%s)" % (text, repr(rr)[:100]))
+        return key, "ok", text, bad
+    except Unsupported as e:
+        return key, "unanalysable", "unanalysable: %s (%s)" % (e, e.where), []
+    except Panic as e:
+        return key, "ok", "", ["panic while compiling: %s" % e]
+
+
+def check_compile_tr(chk, F):
+    import multiprocessing as mp
+    R = "R08.10"
+    chk.rule(R, "whole policies through Policy::compile_tr (internal-key extraction, per-leaf compilation, Huffman tree), "
+                "compile_tr_native, compile_tr_private_experimental and compile_to_descriptor (bare, sh, wsh, sh-wsh, tr), by "
+                "evaluating them: the returned descriptor is of the requested kind, lifts (evaluated) to a policy with the truth table of the input "
+                "policy (the unspendable key counting as never available), every leaf passes validate(&Tap::SANE), and the "
+                "descriptor's text parses back to it")
+    A, B, C = (("key", x) for x in "ABC")
+    quick = chk.tier == "quick"
+    jobs = [(p, "compile_tr") for p in compile_tr_family(chk.tier)]
+    small = [("thresh", 2, [A, B, C])] + ([] if quick else [("or", [A, ("and", [B, ("older", 5)])])])
+    jobs += [(p, "desc:" + k) for p in small for k in ("Wsh", "Sh", "ShWsh", "Bare", "Tr")]
+    jobs += [(p, md) for p in [("or", [A, ("or", [B, C])])] + ([] if quick else [("or", [("and", [A, B]), ("and", [C, ("older", 5)])])])
+             for md in ("compile_tr_native", "compile_tr_private_experimental")]
+    if not quick:
+        jobs += [(p, md) for p in compile_tr_family("quick")[1:] for md in ("compile_tr_native", "compile_tr_private_experimental")]
+    with mp.Pool(min(16, os.cpu_count() or 4)) as pool:
+        res = pool.map(_compile_tr_work, jobs, chunksize=1)
+    n_ok = 0
+    for key, status, info, bad in res:
+        if status == "unanalysable":
+            chk.fail(R, "unanalysable:" + key, info, kind="unanalysable")
+        elif status == "refused":
+            chk.extra.setdefault("R08.10_refused", []).append("%s: %s" % (key, info))
+        else:
+            n_ok += 1
+            chk.obligation(R, not bad, key, "; ".join(bad[:2])[:800], where="src/policy/concrete.rs")
+            chk.extra.setdefault("R08.10_samples", []).append("%s -> %s" % (key, info))
+    chk.floor(R, "compiled policies", n_ok, 16)
+
+
 def run(chk):
     F = chk.facts()
     chk.explanation = __doc__
@@ -714,3 +830,5 @@ def run(chk):
         chk.guard("R08.6", "shared", check_shared_mechanisms, chk, F)
     if not ONLY or "9" in ONLY:
         chk.guard("R08.9", "compile-end-to-end", check_compile_end_to_end, chk, F)
+    if not ONLY or "10" in ONLY.split(","):
+        chk.guard("R08.10", "compile-tr", check_compile_tr, chk, F)
